@@ -327,7 +327,7 @@ but no other interpretation is applied
             mat = re.search(r'^(\w+)\s*\((.*)\)\s*;?\s*$', line, re.IGNORECASE)
             if mat:
                 cmd = mat.group(1).lower()
-                args = re.sub(r'^"(.*)"$', r'\1', mat.group(2))
+                args = re.sub(r'^"([^"]*)"$', r'\1', mat.group(2)) # "..." around the whole list, not around two arguments
                 #
                 # Protect \" by replacing it with "\002"
                 #
